@@ -603,6 +603,24 @@ func HarnessC19Gaps5() { c19Gaps(5, 8) }
 func HarnessC19Gaps6() { c19Gaps(6, 8) }
 func HarnessC19Gaps7() { c19Gaps(7, 8) }
 
+// the thorough tier splits the gaps over 16 harnesses (they run in parallel)
+func HarnessC19GapsT0() { c19Gaps(0, 16) }
+func HarnessC19GapsT1() { c19Gaps(1, 16) }
+func HarnessC19GapsT2() { c19Gaps(2, 16) }
+func HarnessC19GapsT3() { c19Gaps(3, 16) }
+func HarnessC19GapsT4() { c19Gaps(4, 16) }
+func HarnessC19GapsT5() { c19Gaps(5, 16) }
+func HarnessC19GapsT6() { c19Gaps(6, 16) }
+func HarnessC19GapsT7() { c19Gaps(7, 16) }
+func HarnessC19GapsT8() { c19Gaps(8, 16) }
+func HarnessC19GapsT9() { c19Gaps(9, 16) }
+func HarnessC19GapsT10() { c19Gaps(10, 16) }
+func HarnessC19GapsT11() { c19Gaps(11, 16) }
+func HarnessC19GapsT12() { c19Gaps(12, 16) }
+func HarnessC19GapsT13() { c19Gaps(13, 16) }
+func HarnessC19GapsT14() { c19Gaps(14, 16) }
+func HarnessC19GapsT15() { c19Gaps(15, 16) }
+
 // ---------------------------------------------------------------------------------------------------- C11
 type numTy struct {
 	name            string
